@@ -67,6 +67,7 @@ static void mode_cbrms(void){
     if(k==0||vc_chance(&r,1,3)){ int v=vc_chance(&r,1,8)?OPUS_BITRATE_MAX:vc_range(&r,500*ch,vc_chance(&r,1,2)?64000*ch:320000*ch); if(me) opus_multistream_encoder_ctl(me,OPUS_SET_BITRATE(v)); else opus_projection_encoder_ctl(pe,OPUS_SET_BITRATE(v)); user_br=v; if(v!=OPUS_BITRATE_MAX){ if(user_br<500*ch) user_br=500*ch; if(user_br>300000*ch) user_br=300000*ch; } }
     if(vc_chance(&r,1,3)) fidx=vc_below(&r,9); int fs=vk_frame_samples(Fs,fidx); vs_fill(&g,in,fs);
     int maxb=vc_chance(&r,1,4)?vc_range(&r,1,10*streams):vc_range(&r,10*streams,6000);
+    if(vc_chance(&r,1,4)){ int j=1+(int)vc_below(&r,streams<4?streams:4); maxb=254*j+(int)vc_below(&r,2*j+8)-2; }   /* sizes at which a stream's share crosses the 252..255-byte self-delimiting length boundary */
     vc_gbuf pk=vc_galloc(maxb);
     int len= me?opus_multistream_encode_float(me,in,fs,pk.p,maxb):opus_projection_encode_float(pe,in,fs,pk.p,maxb); vc_count("ms_encode_calls",1);
     int cz=vc_gcheck(&pk); if(cz) vc_viol("write:outside-buffer","ms canary %d damaged maxb=%d ret=%d",cz,maxb,len);
